@@ -920,7 +920,7 @@ def run(ck, tier, rng):
         if c["klass"] not in seen and c["kind"] == "seq":
             seen.add(c["klass"])
             ck.sample({"k": c["k"], "ops": [describe_op(o) for o in c["ops"]][:4]}, limit=14)
-    concrete_before = len(ck.violations) + len(ck.known_hits)
+    concrete_before = len(ck.violations)
     diffs = 0
     first = None
     if ck.build.ok:
@@ -949,7 +949,7 @@ def run(ck, tier, rng):
         if not tab_ok:
             diffs += 1
             first = first or ({"kind": "table"}, tab_msg, "unicodedata")
-        if diffs and len(ck.violations) + len(ck.known_hits) == concrete_before:
+        if diffs and len(ck.violations) == concrete_before:
             ck.violation("correspondence", "model/CoreProps.v and pptx core properties disagree on %d cases, e.g. %s: model=%s impl=%s; "
                          "the oracle found no input on which the property itself fails" % (diffs, first[0].get("klass", first[0]["kind"]), first[1], first[2]),
                          {"theorem_or_correspondence": "correspondence CoreProps.v ~ oxml/coreprops.py, parts/coreprops.py (theorems C18_* are about the model only)",
